@@ -302,9 +302,9 @@ func (sc *C04Scenario) Execute(t *testing.T) *core.Outcome {
 		if selfUnsubRuns > 1 {
 			out.V("once-fired-twice", "the self-unsubscribing once handler ran %d times", selfUnsubRuns)
 		}
-		if selfUnsubErr != nil {
-			out.V("unsubscribe-refused", "a handler that unsubscribes itself while it is running got %v", selfUnsubErr)
-		}
+		// (whether Unsubscribe still finds the running Once handler - claimed, about to be retired - is left
+		// open: nil and "not found" are both accepted; what counts is that it is gone afterwards)
+		_ = selfUnsubErr
 		selfLeft := func(ti int) int {
 			if sc.SelfUnsub && selfUnsubRuns == 0 && ti == sc.Regs[0].Type {
 				return 1 // not reached by a live publish so far: still registered (on the first registration's type)
